@@ -184,6 +184,18 @@ func run(job Job, eng Engine) *Output {
 	}
 
 	handle := func(r *world.Result, runSeed uint64, index, cell int) {
+		if job.Prop != "C18" {
+			// pool discipline belongs to C18; elsewhere it is an observation
+			var keep []simrt.Failure
+			for _, f := range r.Failures {
+				if len(f.Check) > 5 && f.Check[:5] == "pool/" {
+					r.Notes = append(r.Notes, "pool discipline violated (C18's property): "+f.Check+": "+f.Msg)
+					continue
+				}
+				keep = append(keep, f)
+			}
+			r.Failures = keep
+		}
 		account(r)
 		if len(r.Failures) == 0 {
 			return
